@@ -667,7 +667,35 @@ impl<'t> Gen<'t> {
     if stmts.is_empty() {
       stmts.push(Stmt::Expr(println(Expr::new(Ty::Str, EK::Str("empty".into())))));
     }
+    // a long string whose content depends on the position (numbers counting down, separated), longer than
+    // the chunk sizes of the run-time's string conversion; printed (or used as a panic message) once
+    let mut extra_members = vec![];
+    if self.t.bool(1, 25) {
+      self.feat("long-position-dependent-string");
+      let n = [400, 1800, 2300, 3300, 5000][self.t.choose(5)];
+      let sep = [",", " ", "-", ";;"][self.t.choose(4)];
+      let var = |x: &str, ty: Ty| Expr::new(ty, EK::Var(x.into()));
+      let int = |v: i32| Expr::new(Ty::Int, EK::Int(v));
+      let cat = |a: Expr, b: Expr| Expr::new(Ty::Str, EK::Binary("::", Box::new(a), Box::new(b)));
+      let call = |n: Expr, acc: Expr| Expr::new(Ty::Str, EK::StaticCall { module: module.to_vec(), class: "Main".into(), member: "buildLongString".into(), targs: vec![], args: vec![n, acc] });
+      let piece = cat(cat(var("acc", Ty::Str), from_int(var("n", Ty::Int))), Expr::new(Ty::Str, EK::Str(sep.into())));
+      let body = Expr::new(
+        Ty::Str,
+        EK::If {
+          cond: Box::new(Expr::new(Ty::Bool, EK::Binary("<=", Box::new(var("n", Ty::Int)), Box::new(int(0))))),
+          then: Box::new(var("acc", Ty::Str)),
+          els: Box::new(call(Expr::new(Ty::Int, EK::Binary("-", Box::new(var("n", Ty::Int)), Box::new(int(1)))), piece)),
+        },
+      );
+      extra_members.push(Member { name: "buildLongString".into(), is_method: false, is_public: true, tparams: vec![], params: vec![("n".into(), Ty::Int), ("acc".into(), Ty::Str)], ret: Ty::Str, body: Some(body) });
+      let built = call(int(n), Expr::new(Ty::Str, EK::Str("".into())));
+      let at = self.t.choose(stmts.len() + 1);
+      stmts.insert(at, Stmt::Expr(println(built)));
+    }
     let body = Expr::new(Ty::Unit, EK::Block { stmts, last: None });
+    let mut members = vec![Member { name: "main".into(), is_method: false, is_public: true, tparams: vec![], params: vec![], ret: Ty::Unit, body: Some(body) }];
+    members.extend(extra_members);
+    let main_members = members;
     Class {
       name: "Main".into(),
       is_interface: false,
@@ -675,7 +703,7 @@ impl<'t> Gen<'t> {
       tparams: vec![],
       typedef: TypeDef::None,
       implements: vec![],
-      members: vec![Member { name: "main".into(), is_method: false, is_public: true, tparams: vec![], params: vec![], ret: Ty::Unit, body: Some(body) }],
+      members: main_members,
     }
     .with_module(module)
   }
